@@ -1,0 +1,5 @@
+//go:build !verif
+
+package redis
+
+func verifPoint(point string, arg any) {}
